@@ -11,8 +11,9 @@ RULE = ("unit cases: one real SegmentFetcher (k 1..4) driven event by event (add
         "that is not outstanding, add after stop, a bad segment number); non-trivial = at least one share failed or went overdue; "
         "finder cases: one real ShareFinder over <= 8 servers with answers, errors and overdue timers in random order; "
         "grid cases: N<=6 shares placed on <= N+3 servers (several per server), subsets deleted / corrupted (block data, version "
-        "field, truncation, hash trees, UEB) / failing on the nth read, DYHB answers that are late, lost, or arrive only after the finder's "
-        "OVERDUE timer has fired (grid time warp), schedules by seed; a share of the cases under a frozen / coarse (1/64 s) / backwards / jumping downloader clock; idle-node cases: one cached node, a first read served by k holders while the other "
+        "field, truncation, hash trees, UEB) / failing on the nth read, DYHB answers that are late, lost, fail at once (lost connection: already-failed Deferred), or arrive only after the finder's "
+        "OVERDUE timer has fired (grid time warp), schedules by seed; a share of the cases under a frozen / coarse (1/64 s) / backwards / jumping downloader clock; wrong-guess cases: first reads of fresh nodes at offsets whose guessed segment number is the real number of segments exactly, one less or more "
+        "(default_max_segment_size substituted so that small files are guessed wrongly); idle-node cases: one cached node, a first read served by k holders while the other "
         "holders' DYHB answers arrive only after it finished, the used shares then deleted, the file read again through the same node; "
         "non-trivial = at least one share bad or one fault planned")
 META = {
@@ -187,7 +188,10 @@ def drive_unit(case):
             node.num_segments = ns
             f, a, kw = queue.pop(0)
             nlog = len(log)
+            was_running = sf._running
             f(*a, **kw)
+            if was_running and ns is not None and ns <= case["segnum"] and ("failed", "BadSegmentNumberError") not in log[nlog:]:
+                endbox.setdefault("badseg_missed", [len(events) - 1, ns, [e for e in log[nlog:] if e[0] != "start"]])
             for ent in log[nlog:]:
                 if ent[0] == "start":
                     outstanding[ent[1]] = False
@@ -282,7 +286,8 @@ def drive_unit(case):
             else:
                 obs.append([3, {"NoSharesError": 0, "NotEnoughSharesError": 1, "BadSegmentNumberError": 2}.get(ent[1], 99)])
         info = {"complete": complete, "nomore": nomore, "added": [i for i in range(len(shares)) if i not in unadded],
-                "finished": sorted(finished), "running": sf._running, "end_event": endbox.get("end", len(events))}
+                "finished": sorted(finished), "running": sf._running, "end_event": endbox.get("end", len(events)),
+                "badseg_missed": endbox.get("badseg_missed")}
         return events, obs, log, info
     finally:
         F.eventually = real_eventually
@@ -326,6 +331,11 @@ def unit_oracle(ctx, case, events, log, info):
             if blk[1] not in completed or sh[blk[1]]["num"] != shnum:
                 ctx.oracle_fail("process-blocks-block-not-from-complete", "block for sh%d does not come from a COMPLETE answer of a share with that number" % shnum,
                                 case=cj, observed=[shnum, blk[1]])
+    if info.get("badseg_missed"):
+        ix, ns, seen = info["badseg_missed"]
+        ctx.oracle_fail("segment-past-end-not-reported-as-bad-segment-number",
+                        "loop() ran with %d segments known (authoritative) while fetching segment %d and did not call fetch_failed(BadSegmentNumberError) "
+                        "(Segmentation retries only on that error); it did: %r" % (ns, case["segnum"], seen), case=cj, expected="fetch_failed(BadSegmentNumberError)", observed=seen)
     if case["weird"]:
         return
     # shares still able to supply a block at the moment of the error
@@ -410,6 +420,7 @@ def drive_finder(case):
     queue = []
     outs = []
     timers = {}
+    sync_failed = []
 
     class Timer(object):
         def __init__(self, fn, args):
@@ -436,8 +447,13 @@ def drive_finder(case):
             return self
 
         def get_buckets(self, si):
-            self.d = defer.Deferred()
             outs.append([0, self.i])
+            if self.i in case.get("sync_dead", []):
+                # lost connection: callRemote fails at once, the Deferred has already fired
+                sync_failed.append(self.i)
+                self.d = None
+                return defer.fail(RuntimeError("DeadReferenceError"))
+            self.d = defer.Deferred()
             return self.d
 
     class Broker(object):
@@ -489,7 +505,7 @@ def drive_finder(case):
         fd = FI.ShareFinder(Broker(servers), vcap, node, DownloadStatus(b"\x00" * 16, 1000), None, max_outstanding_requests=case["max"])
         for _ in range(case["steps"]):
             x = r.random()
-            pending = sorted(rt.server.i for rt in fd.pending_requests)
+            pending = sorted(rt.server.i for rt in fd.pending_requests if by_i[rt.server.i].d is not None)
             armed = sorted(i for i, t in timers.items() if t.active and i in pending and i not in [rt.server.i for rt in fd.overdue_requests])
             if x < 0.18:
                 events.append("DHungry")
@@ -497,7 +513,10 @@ def drive_finder(case):
             elif x < 0.55 and queue:
                 events.append("DLoop")
                 f, a, kw = queue.pop(0)
+                del sync_failed[:]
                 f(*a, **kw)
+                for i in sync_failed:           # the query failed inside send_request: same as an error answer right away
+                    events.append("(DError %d)" % i)
             elif x < 0.80 and pending:
                 i = r.choice(pending)
                 if r.random() < 0.25:
@@ -549,7 +568,8 @@ def finder_cases(ctx):
         for sv in servers:
             if r.random() < 0.6:
                 shares[sv] = sorted(r.sample(range(6), r.choice([1, 1, 2, 3])))
-        case = {"servers": servers, "shares": shares, "max": r.choice([1, 2, 3, 10]), "steps": r.choice([10, 30, 60]), "seed": r.getrandbits(32)}
+        case = {"servers": servers, "shares": shares, "max": r.choice([1, 2, 3, 10]), "steps": r.choice([10, 30, 60]), "seed": r.getrandbits(32),
+                "sync_dead": sorted(sv for sv in servers if r.random() < r.choice([0.0, 0.0, 0.3, 1.0]))}
         try:
             events, rows, fd = drive_finder(case)
         except Exception as e:
@@ -563,6 +583,11 @@ def finder_cases(ctx):
             asked = set(row[1] for row in rows[5:] if row[0] == 0)
             if asked != set(servers):
                 ctx.oracle_fail("no-more-shares-before-all-servers-asked", "no_more_shares although servers %r were never asked" % sorted(set(servers) - asked), case=case)
+        # a query whose Deferred has fired is no longer pending (else nothing will ever retire it and exhaustion is never reported)
+        stale = [i for i in rows[1] if i in case["sync_dead"]]
+        if stale:
+            ctx.oracle_fail("finder-keeps-answered-query-pending", "the queries to servers %r failed at once (lost connection) but are still in pending_requests; "
+                            "no_more_shares can never be reported" % stale, case=case, observed=rows[:5])
         # a hungry running finder with nothing queued and nothing pending has reported exhaustion
         if fd._hungry and fd.running and rows[4][2] == 0 and not rows[1] and not nomore:
             ctx.oracle_fail("finder-idle-without-answer", "hungry ShareFinder has nothing queued, nothing pending and never reported no_more_shares", case=case,
@@ -670,6 +695,8 @@ def gen_grid_case(r):
             sfates[sv] = "dyhb-lost"
         elif x < 0.30:
             sfates[sv] = "dyhb-after-overdue"      # answers, but only after the finder's OVERDUE timer fired
+        elif x < 0.36:
+            sfates[sv] = "dyhb-sync-error"         # connection lost: get_buckets fails at once (already-failed Deferred)
     return {"k": k, "n": n, "servers": servers, "segsize": seg, "size": size, "place": place, "fates": fates,
             "server_fates": {str(a): b for a, b in sfates.items()}, "nth": r.randrange(0, 5), "seed": r.getrandbits(30),
             "fifo": r.choice(["server", "server", "none"]), "clock": r.choice(CLOCKS)}
@@ -680,7 +707,7 @@ def classify(case):
     out = []
     for (shnum, sv), fate in zip(case["place"], case["fates"]):
         sf = case["server_fates"].get(str(sv))
-        if sf in ("dyhb-error", "dyhb-lost") or fate in BAD_KINDS:
+        if sf in ("dyhb-error", "dyhb-lost", "dyhb-sync-error") or fate in BAD_KINDS:
             out.append("bad")
         elif fate in MAYBE_KINDS:
             out.append("maybe")
@@ -748,9 +775,13 @@ def run_c03_grid_case(case):
             elif fate == "late":
                 plan.append({"server": sv, "method": "read", "shnum": shnum, "nth": 0, "count": 2, "action": "delay"})
         very_late = []
+        sync_dead = []
         for sv, sf in case["server_fates"].items():
             if sf == "dyhb-after-overdue":
                 very_late.append(int(sv))
+                continue
+            if sf == "dyhb-sync-error":
+                sync_dead.append(int(sv))
                 continue
             act = {"dyhb-error": "error", "dyhb-late": "delay", "dyhb-lost": "drop"}[sf]
             plan.append({"server": int(sv), "method": "get_buckets", "nth": 0, "count": None, "action": act})
@@ -769,6 +800,8 @@ def run_c03_grid_case(case):
                     eventually(lambda: reactor.callLater(30.0, lambda: [g.unhang_server(sv) for sv in very_late]))
                 return start()
             return go
+        from props.segq_common import make_dyhb_fail_synchronously
+        make_dyhb_fail_synchronously(g, sync_dead)
         with downloader_clock(case.get("clock", "real"), case["seed"]):
             g.set_faults(plan)
             out = g.run(with_late_servers(lambda: g.download(cap)), outcome=True)
@@ -837,7 +870,7 @@ def grid_cases(ctx):
     import os
     from core import env
     for path in sorted(glob.glob(os.path.join(env.CORPUS, "C03", "*.json"))):
-        if os.path.basename(path).startswith("idle-"):
+        if os.path.basename(path).startswith(("idle-", "guess-")):
             continue
         case = json.load(open(path))["case"]
         data, out, out2 = run_c03_grid_case(case)
@@ -980,8 +1013,107 @@ def idle_node_cases(ctx):
         ctx.trace(1)
 
 
+# ---------------------------------------------------------------------------
+# grid: first read of a fresh node at offset > 0 with a wrong segment-size guess
+# ---------------------------------------------------------------------------
+def gen_guess_case(r):
+    """The node guesses the segment size before it has the UEB (default_max_segment_size, 1 MiB in the code, substituted by
+    a small value here so that small files do).  With a guess smaller than the real size the guessed segment number of a
+    first read at offset > 0 can be the real number of segments exactly (the first number past the end), one less, or more:
+    the fetcher must report BadSegmentNumberError, which Segmentation answers by asking again with the real size."""
+    k, n = r.choice([(1, 2), (2, 3), (2, 4), (3, 5)])
+    S = r.choice([k * 16, k * 24, 96 // k * k])
+    m = r.choice([2, 3, 4])
+    size = max(56, S * m - r.choice([0, 1, S // 2, S - 1]))
+    nseg = -(-size // S)
+    guess_max = r.choice([S // 2, S // 2, S - k, S // 3, S // 4])
+    guess = -(-min(size, max(1, guess_max)) // k) * k
+    reads = []
+    for _ in range(r.choice([2, 3, 4])):
+        which = r.choice(["exact", "exact", "exact", "below", "above", "any"])
+        seg_guess = {"exact": nseg, "below": nseg - 1, "above": nseg + 1, "any": r.randrange(0, nseg + 3)}[which]
+        lo, hi = seg_guess * guess, min(size, (seg_guess + 1) * guess)
+        off = r.randrange(lo, hi) if lo < hi else r.randrange(1, size)
+        reads.append([off, r.choice([None, 1, 16, S, size])])
+    delete = sorted(r.sample(range(n), r.choice([0, 0, n - k])))
+    return {"k": k, "n": n, "segsize": S, "size": size, "guess_max": max(1, guess_max), "reads": reads, "delete": delete, "seed": r.getrandbits(30),
+            "clock": r.choice(CLOCKS)}
+
+
+def run_guess_case(case):
+    from core import grid as G
+    import allmydata.immutable.downloader.node as NODE
+    data = bytes((9 * i + case["size"] + (i >> 3)) & 0xFF for i in range(case["size"]))
+    outs = []
+    saved = NODE.DownloadNode.default_max_segment_size
+    with G.Grid(num_servers=case["n"], k=case["k"], n=case["n"], happy=1, max_segment_size=case["segsize"], seed=case["seed"], timeout=15) as g:
+        cap = g.run(g.upload(data, convergence=b"c03guess"))
+        for shnum in case["delete"]:
+            g.delete_shares(cap, shnums=[shnum])
+        NODE.DownloadNode.default_max_segment_size = case["guess_max"]
+        try:
+            with downloader_clock(case.get("clock", "real"), case["seed"]):
+                for off, sz in case["reads"]:
+                    g.client(0).nodemaker._node_cache.clear()          # a fresh node: nothing known but the cap
+                    node = g.node(cap)
+                    guessed = off // node._cnode._node.guessed_segment_size if hasattr(node, "_cnode") and node._cnode._node else None
+                    outs.append((off, sz, guessed, g.run(g.download_range(cap, off, sz), outcome=True)))
+        finally:
+            NODE.DownloadNode.default_max_segment_size = saved
+    return data, outs
+
+
+def judge_guess_case(ctx, case, data, outs):
+    nseg = -(-case["size"] // case["segsize"])
+    res = []
+    for off, sz, guessed, o in outs:
+        want = data[off:] if sz is None else data[off:off + sz]
+        res.append(o.status if o.status != "error" else o.error)
+        if o.status in ("hung", "timeout"):
+            ctx.oracle_fail("read-never-finished", "first read(%d,%r) of a fresh node is %s" % (off, sz, o.status), case=case)
+        elif o.status != "ok":
+            ctx.oracle_fail("k-good-shares-but-read-failed",
+                            "first read(%d,%r) of a fresh node failed with %s although %d intact shares sit on answering servers (k=%d); the file has %d segments "
+                            "of %d bytes, the node guessed a segment size of %d with default_max_segment_size=%d, i.e. asked for segment %d first" % (
+                                off, sz, o.error, case["n"] - len(case["delete"]), case["k"], nseg, case["segsize"],
+                                -(-min(case["size"], case["guess_max"]) // case["k"]) * case["k"], case["guess_max"],
+                                off // (-(-min(case["size"], case["guess_max"]) // case["k"]) * case["k"])),
+                            case=case, expected="data", observed=str(o.failure.value)[:300] if o.failure else o.error)
+        elif o.value != want:
+            ctx.oracle_fail("read-returned-wrong-data", "first read(%d,%r) of a fresh node returned wrong bytes" % (off, sz), case=case,
+                            expected=want.hex()[:200], observed=o.value.hex()[:200])
+    return res
+
+
+def guess_cases(ctx):
+    ctx.correspondence("grid-downloads-vs-rule")
+    import glob
+    import json
+    import os
+    from core import env
+    for path in sorted(glob.glob(os.path.join(env.CORPUS, "C03", "guess-*.json"))):
+        case = json.load(open(path))["case"]
+        res = judge_guess_case(ctx, case, *run_guess_case(case))
+        ctx.case((os.path.basename(path), tuple(res)), kind="corpus")
+    n = ctx.n(25, 300)
+    for i in range(n):
+        r = ctx.rng("guess", i)
+        case = gen_guess_case(r)
+        try:
+            data, outs = run_guess_case(case)
+        except Exception as e:
+            ctx.mismatch("grid-harness-error", "guess case could not be run: %s: %s" % (type(e).__name__, e), case=case, correspondence="grid-downloads-vs-rule")
+            continue
+        res = judge_guess_case(ctx, case, data, outs)
+        ctx.case((case["seed"], tuple(map(tuple, case["reads"]))), kind="grid:wrong-guess:" + ("ok" if all(x == "ok" for x in res) else "failed"))
+        ctx.trace(1)
+
+
 def replay(ctx, rec):
     case = rec.get("case") or {}
+    if "guess_max" in case:
+        data, outs = run_guess_case(case)
+        return [[off, sz, guessed, o.status, o.error] for off, sz, guessed, o in outs]
     if "fast" in case and "late" in case:
         data, out1, outs, asked = run_idle_case(case)
         return {"first": [out1.status, out1.error], "later": [[rd, o.status, o.error] for rd, o in outs], "asked_during_first_read": asked}
@@ -998,3 +1130,4 @@ def run(ctx):
     finder_cases(ctx)
     grid_cases(ctx)
     idle_node_cases(ctx)
+    guess_cases(ctx)
